@@ -143,6 +143,18 @@ def absDiff [Num α] (a b : α) : α :=
 /-- `ys[s:e]` -/
 def slice {β : Type} (l : List β) (s e : Nat) : List β := (l.drop s).take (e - s)
 
+/-- mode `all`: `list(range(indexes[0], indexes[1]))` -/
+def pickAll (s e : Nat) : List Nat := List.range' s (e - s)
+
+/-- mode `closest`: `mz_diffs = [abs(x - ys[idx]) for idx in range(s, e)]; s + mz_diffs.index(min(mz_diffs))`
+(`none` = `min([])` raises ValueError) -/
+def pickClosest [Num α] (ys : List α) (x : α) (s e : Nat) : Option Nat :=
+  (argBest (fun v b => Num.lt v b) ((slice ys s e).map fun y => absDiff x y)).map fun i => s + i
+
+/-- mode `largest`: `intensities = ints[s:e]; s + intensities.index(max(intensities))` -/
+def pickLargest [Num α] (ints : List α) (s e : Nat) : Option Nat :=
+  (argBest (fun v b => Num.lt b v) (slice ints s e)).map fun i => s + i
+
 /-- the body of the loop of `match_spectra` for one fragment `x` with window `w`.
 `intens = none` models `intensity_spectra=None` (TypeError on subscripting); an empty slice of a too
 short intensity list makes `max([])` raise ValueError. -/
@@ -151,17 +163,17 @@ def pick [Num α] (mode : Mode) (ys : List α) (intens : Option (List α)) (x : 
   | Option.none => .ok .none
   | some (s, e) =>
     match mode with
-    | .all => .ok (.many (List.range' s (e - s)))
+    | .all => .ok (.many (pickAll s e))
     | .closest =>
-      match argBest (fun v b => Num.lt v b) ((slice ys s e).map (absDiff x)) with
-      | some i => .ok (.one (s + i))
+      match pickClosest ys x s e with
+      | some j => .ok (.one j)
       | Option.none => .error .valueError
     | .largest =>
       match intens with
       | Option.none => .error .typeError
       | some ints =>
-        match argBest (fun v b => Num.lt b v) (slice ints s e) with
-        | some i => .ok (.one (s + i))
+        match pickLargest ints s e with
+        | some j => .ok (.one j)
         | Option.none => .error .valueError
 
 def matchSpectra [Num α] (mode : Mode) (t : Tol) (tol : α) (xs ys : List α)
